@@ -15,6 +15,7 @@ import (
 	"syscall"
 	"time"
 
+	"github.com/mimecast/dtail/internal/clients"
 	"github.com/mimecast/dtail/internal/config"
 	"github.com/mimecast/dtail/internal/io/line"
 	"github.com/mimecast/dtail/internal/mapr"
@@ -402,5 +403,27 @@ func init() {
 			break
 		}
 		return fmt.Sprintf("%s;count=%d", state, total)
+	}
+}
+
+func init() {
+	// c06.report <servers> <messages per server> <rounds>
+	// the client's reporting path: periodic reporter and final report against connection handlers that merge their
+	// partial results (see VerifC06Reporting); the final outfile must account for every message of every server
+	ops["c06.report"] = func(a []string) string {
+		ns, msgs, rounds := atoi(a[0]), atoi(a[1]), atoi(a[2])
+		dir, err := os.MkdirTemp(os.Getenv("VERIF_WORK"), "c06r-")
+		if err != nil {
+			panic(err)
+		}
+		defer os.RemoveAll(dir)
+		want := fmt.Sprint(ns * msgs)
+		for r := 0; r < rounds; r++ {
+			got := clients.VerifC06Reporting(filepath.Join(dir, fmt.Sprintf("out%d.csv", r)), ns, msgs)
+			if got != want {
+				return fmt.Sprintf("round %d: the final outfile accounts for %s of %s", r, got, want)
+			}
+		}
+		return "complete"
 	}
 }
